@@ -560,7 +560,9 @@ class URL:
         """Cache the netloc parts of the URL."""
         c = self._cache
         split_loc = split_netloc(self._netloc)
-        c["raw_user"], c["raw_password"], c["raw_host"], c["explicit_port"] = split_loc
+        c["raw_user"], c["raw_password"], raw_host, c["explicit_port"] = split_loc
+        # an authority with an empty host reads '' as the eager parser stores it
+        c["raw_host"] = "" if raw_host is None and self._netloc else raw_host
 
     def is_absolute(self) -> bool:
         """A check for absolute URLs.
@@ -790,7 +792,7 @@ class URL:
         """
         if (raw := self.raw_host) is None:
             return None
-        if raw[-1] == ".":
+        if raw[-1:] == ".":
             # Remove all trailing dots from the netloc as while
             # they are valid FQDNs in DNS, TLS validation fails.
             # See https://github.com/aio-libs/aiohttp/issues/3636.
